@@ -8,6 +8,15 @@ ACTION_CONSTRAINT Export
 CHECK_DEADLOCK FALSE
 """
 
+def model_check_laws(run, thorough):
+    """The reference semantics is itself model checked: algebraic laws over every collection of <= 3 documents."""
+    st = run.tlc("QueryLaws.tla", "MC_QueryLaws_broken.cfg", workers=8, timeout=600, expect_violation=True,
+                 label="MC_QueryLaws(with a wrong null comparison substituted: must be refuted)")
+    if not st["violated"]:
+        raise vlib.Infra("the laws of the query semantics no longer refute a wrong comparison operator: vacuous laws")
+    run.tlc("QueryLaws.tla", "MC_QueryLaws_mid.cfg" if thorough else "MC_QueryLaws.cfg", workers=12, timeout=1800,
+            label="MC_QueryLaws(%s domains, every collection of <= 3 documents)" % ("4-value" if thorough else "3-value"))
+
 def gen_cases(run, n, ndocs=5, tag="q"):
     out = os.path.join(run.tmp, "cases-%s.ndjson" % tag)
     run.tlc("QueryGen.tla", "gen_%s.cfg" % tag, mode="simulate", workers=1, sim="num=1", extra=["-depth", str(n)], timeout=1800,
